@@ -112,6 +112,12 @@ def run(res, proof):
         jobs.append({'text': txt, 'mode': 'full', 'lines': single, 'check_release': True}); metas.append(('full', S, txt))
         if rng.random() < 0.3:
             jobs.append({'text': txt, 'mode': 'full', 'ignore': ['reaction']}); metas.append(('ignore-reactions', S, txt))
+        if rng.random() < 0.25:
+            # the same system through read_pil(path, is_file=True), with a comment behind some statements and a last line
+            # without line end
+            flines = txt.rstrip('\n').split('\n')
+            ftxt = '\n'.join((l + ('  # note %d' % i if (l.strip() and rng.random() < 0.4 and not l.rstrip().endswith(('.', ')', '(', '+'))) else '')) for i, l in enumerate(flines))
+            jobs.append({'text': ftxt + ('' if rng.random() < 0.5 else '\n'), 'mode': 'full', 'as_file': True}); metas.append(('as-file', S, ftxt))
         if rng.random() < 0.2:
             # read, empty the returned dictionary in place (keeping the objects), read the same text again
             jobs.append({'text': txt, 'mode': 'full', 'reread': True}); metas.append(('read-twice', S, txt))
@@ -149,7 +155,7 @@ def run(res, proof):
     # ---- correspondence: the Lean reader model (grammar + kernel translation + object world) on the same documents
     lines, impl = [], []
     for (mode, S, txt), r, job in zip(metas, results, jobs):
-        if mode in ('after-another-document', 'read-twice'):
+        if mode in ('after-another-document', 'read-twice', 'as-file'):
             continue
         ign = 'reaction' if mode == 'ignore-reactions' else ''
         lines.append('reset'); impl.append('ok')
